@@ -224,7 +224,7 @@ pub fn all_lenses() -> Vec<Lens> {
         Lens {
             name: "A6-checksum-macro",
             prefixes: vec!["pkg:t/n?checksum=", "pkg:t/n?CheckSum="],
-            alphabet: vec!["a:", "A:", "a1:", "b:", "é:", "É:", "ǅ:", "x", ":", ",", "00", "fF", "7", "g", "%3A", "%2C"],
+            alphabet: vec!["a:", "A:", "a1:", "b:", "é:", "É:", "ǅ:", "x", ":", ",", "00", "fF", "7", "g", "%3A", "%2C", "%26", "%2541"],
             suffixes: vec![""],
             n_quick: 5,
             n_thorough: 7,
